@@ -51,4 +51,17 @@ def d61Query : Query :=
 def d61Index : JoinIndex := [(.int 1, [[.text [120], .int 1], [.text [121], .int 1]])]
 def d61Line : Line := { text := [65], row := [.text [109], .int 1] }
 
+/-- `SELECT COUNT(*) FROM a WHERE k = 1` -/
+def exWhereStmt : AggStmt :=
+  { items := [{ name := "count0", kind := .count none false, transform := none }],
+    filter := some (.compare .eq (.column "k") (.value (.int 1))), groupBy := none,
+    having := none, havingAggs := [], havingKeys := [], havingVisit := [], limit := none, distinct := false }
+def exWhereQuery : Query := { stmt := .aggregate exWhereStmt, table := { name := "a", columns := ["x", "k"] }, join := none }
+/-- `k = 1`: admitted, WHERE admits it -/
+def exLineShown : Line := { text := [65], row := [.text [109], .int 1] }
+/-- `k = 2`: admitted, WHERE rejects it -/
+def exLineRejected : Line := { text := [66], row := [.text [110], .int 2] }
+/-- no column extracted: the line is not admitted -/
+def exLineNotAdmitted : Line := { text := [67], row := [.null, .null] }
+
 end Sqlgrep
